@@ -20,6 +20,7 @@ type caseRes struct {
 	lost    map[int64]string // acked id never stored -> op kind after which no copy was left anywhere
 	dup     map[int64]string // id stored more than once -> op kind after which the 2nd copy appeared
 	fullAck map[int64]bool   // id acknowledged by a write that took the queue-full arm
+	typed   map[int64]bool   // written through the pre-typed path (typed msgpack decode / WriteTypedColumnarDirect)
 	cause   map[int64]string // closed classification: which event removed the id's last WAL-file copy
 	acked   []int64
 	crash   bool
@@ -85,7 +86,7 @@ func runCase(c *vh.Ctx, scratch string, cc caseCfg, facts factsT, ops []op, reco
 	os.MkdirAll(root, 0o755)
 	s := newSys(cc, facts, root)
 	defer s.cleanup()
-	res := caseRes{lost: map[int64]string{}, dup: map[int64]string{}, fullAck: map[int64]bool{}, cause: map[int64]string{}}
+	res := caseRes{lost: map[int64]string{}, dup: map[int64]string{}, fullAck: map[int64]bool{}, cause: map[int64]string{}, typed: map[int64]bool{}}
 	hdr := cfgLine(cc, facts)
 	res.lines = append(res.lines, hdr)
 	if record {
@@ -106,11 +107,14 @@ func runCase(c *vh.Ctx, scratch string, cc caseCfg, facts factsT, ops []op, reco
 			res.crash = true
 		}
 		fullHit := ingest.VerifC07FullCount() > full0
-		if o.kind == "w" && s.lastAck {
+		if (o.kind == "w" || o.kind == "wt" || o.kind == "wd") && s.lastAck {
 			for _, r := range o.rows {
 				res.acked = append(res.acked, r.id)
 				if fullHit {
 					res.fullAck[r.id] = true
+				}
+				if o.kind != "w" {
+					res.typed[r.id] = true
 				}
 			}
 		}
@@ -153,6 +157,14 @@ func runCase(c *vh.Ctx, scratch string, cc caseCfg, facts factsT, ops []op, reco
 		if (o.kind == "tick" || o.kind == "shut") && s.paused {
 			exec(op{kind: "wresume"})
 		}
+		// a parked task keeps the flush deadline it was created with: stall mode and a held worker are
+		// kept apart so that every stalled flush runs into a deadline created in stall mode
+		if o.kind == "stall" && s.g.holding() {
+			exec(op{kind: "unhold"})
+		}
+		if o.kind == "hold" && s.store.stall {
+			continue
+		}
 		exec(o)
 	}
 	for _, o := range healing(s.up, s.paused, s.g.holding()) {
@@ -180,6 +192,11 @@ func runCase(c *vh.Ctx, scratch string, cc caseCfg, facts factsT, ops []op, reco
 			res.cause[id] = "never-in-wal-file"
 			if g, ok := walGone[id]; ok {
 				res.cause[id] = "wal-copy-removed-by-" + g
+			}
+			if s.store.unflagged[id] {
+				// by cause: the row's flush ran into the flush deadline on stalled storage and the
+				// failure site did not raise the flush-failure flag, so no replay was ever armed
+				res.cause[id] = "flush-timeout-never-flagged"
 			}
 		case n > 1:
 			res.dup[id] = dupAt[id]
@@ -214,15 +231,15 @@ func report(c *vh.Ctx, cc caseCfg, res caseRes, forced string) bool {
 			// WAL disabled: only the clause "not acknowledged when the rows cannot be buffered or flushed"
 			if res.fullAck[id] {
 				key := "nowal-ack:queue-full-dropped-but-acknowledged"
-				if strings.HasPrefix(forced, "nowal-ack:") {
-					key = forced
+				if res.typed[id] {
+					key += ":typed-path"
 				}
 				fail(key, fmt.Sprintf("WAL disabled: row %d was dropped by the queue-full arm of tryEnqueueFlush, the write still returned nil (HTTP 204) and the row is never stored", id))
 			}
 			continue
 		}
 		key := "loss:" + res.cause[id]
-		if strings.HasPrefix(forced, "loss:") {
+		if strings.HasPrefix(forced, "loss:") && res.cause[id] != "flush-timeout-never-flagged" {
 			key = forced
 		}
 		fail(key, fmt.Sprintf("acknowledged row %d is never stored although storage recovered and maintenance ticks, aged flush, graceful shutdown and restart completed (last copy gone after event %q)", id, k))
@@ -248,6 +265,7 @@ type scenario struct {
 
 func w(key int, rows ...row) op { return op{kind: "w", key: key, rows: rows} }
 func k(kind string) op         { return op{kind: kind} }
+func wk(kind string, key int, rows ...row) op { return op{kind: kind, key: key, rows: rows} }
 func adv(n int) op             { return op{kind: "adv", n: n} }
 func mode(n int) op            { return op{kind: "mode", n: n} }
 func r(id int64, h int) row    { return row{id, h} }
@@ -257,6 +275,15 @@ func scenarios() []scenario {
 		// (a) queue-full drop with WAL disabled: 204 and lost
 		{"nowal-ack:queue-full-dropped-but-acknowledged", false, 1, []op{k("restart"), k("hold"),
 			w(0, r(1, 0), r(2, 0)), w(0, r(3, 0), r(4, 0)), w(0, r(5, 0), r(6, 0))}},
+		// (a-typed) the same through the pre-typed write path (typed msgpack decode, WriteTypedColumnarDirect)
+		{"nowal-ack:queue-full-dropped-but-acknowledged:typed-path", false, 1, []op{k("restart"), k("hold"),
+			wk("wt", 0, r(1, 0), r(2, 0)), wk("wd", 0, r(3, 0), r(4, 0)), wk("wt", 0, r(5, 0), r(6, 0)), wk("wd", 0, r(7, 0), r(8, 0))}},
+		// (t) storage stalls past the flush deadline on the worker path: must raise the flag like an error
+		{"loss:flush-timeout-never-flagged", true, 1, []op{k("restart"), k("stall"), w(0, r(1, 0), r(2, 0)),
+			adv(310), wk("wt", 1, r(3, 0), r(4, 0)), mode(-1), adv(10), k("tick")}},
+		// (t2) the same for the aged (sync) flush and a WriteTypedColumnarDirect batch (row-format WAL entry)
+		{"loss:flush-timeout-never-flagged", true, 1, []op{k("restart"), wk("wd", 0, r(1, 0)), k("stall"), adv(610), k("age"),
+			wk("wd", 1, r(2, 0), r(3, 0)), mode(-1), adv(10), k("tick")}},
 		// (b) queue-full drop with WAL, the tick comes in time (file rotated, younger than safeAge): before
 		// repair B (52926d5) the flag was not raised, no replay ran and the shutdown purge removed the rows
 		{"loss:queue-full-drop-never-replayed-then-purged", true, 1, []op{k("restart"), k("hold"),
@@ -317,11 +344,11 @@ func (g *genState) rows(rd *vh.Rand, multiHour bool) []row {
 }
 
 // symbolic alphabet; concrete ops are made when the sequence is instantiated
-var alphabet = []string{"w0", "w0x2", "w1", "w1mh", "hold", "unhold", "step1", "fail", "fail1", "ok", "wpause", "wresume",
+var alphabet = []string{"w0", "w0x2", "w1", "w1mh", "wt0", "wt0x2", "wd1", "wd0x2", "stall", "hold", "unhold", "step1", "fail", "fail1", "ok", "wpause", "wresume",
 	"adv10", "adv310", "adv610", "adv1810", "age", "tick", "shut", "restart", "crash"}
 
 // reduced alphabet for the exhaustive enumeration (thorough)
-var alphabetEx = []string{"w0x2", "w1", "hold", "unhold", "fail", "ok", "adv310", "adv1810", "tick", "shut", "restart"}
+var alphabetEx = []string{"w0x2", "wt1", "wd0x2", "stall", "hold", "unhold", "fail", "ok", "adv310", "adv1810", "tick", "shut", "restart"}
 
 func instantiate(g *genState, sym string) op {
 	mk := func(key int, hs ...int) op {
@@ -341,6 +368,26 @@ func instantiate(g *genState, sym string) op {
 		return mk(1, 0)
 	case "w1mh":
 		return mk(1, 0, 1)
+	case "wt0":
+		o := mk(0, 0)
+		o.kind = "wt"
+		return o
+	case "wt0x2":
+		o := mk(0, 0, 0)
+		o.kind = "wt"
+		return o
+	case "wt1":
+		o := mk(1, 0)
+		o.kind = "wt"
+		return o
+	case "wd1":
+		o := mk(1, 0)
+		o.kind = "wd"
+		return o
+	case "wd0x2":
+		o := mk(0, 0, 0)
+		o.kind = "wd"
+		return o
 	case "fail":
 		return mode(0)
 	case "fail1":
@@ -362,7 +409,7 @@ func instantiate(g *genState, sym string) op {
 func randomSeq(rd *vh.Rand, maxLen int, crashOK bool) []string {
 	n := 3 + rd.Intn(maxLen-2)
 	seq := []string{"restart"}
-	weights := map[string]int{"w0": 10, "w0x2": 10, "w1": 8, "w1mh": 5, "hold": 4, "unhold": 4, "step1": 3, "fail": 6, "fail1": 3,
+	weights := map[string]int{"wt0": 5, "wt0x2": 5, "wd1": 4, "wd0x2": 5, "stall": 3, "w0": 10, "w0x2": 10, "w1": 8, "w1mh": 5, "hold": 4, "unhold": 4, "step1": 3, "fail": 6, "fail1": 3,
 		"ok": 6, "wpause": 2, "wresume": 2, "adv10": 5, "adv310": 6, "adv610": 3, "adv1810": 4, "age": 3, "tick": 9, "shut": 2, "restart": 2, "crash": 0}
 	if crashOK {
 		weights["crash"] = 1
@@ -397,7 +444,7 @@ func instantiateSeq(syms []string) []op {
 		switch o.kind {
 		case "mode":
 			partial = o.n > 0
-		case "w":
+		case "w", "wt", "wd":
 			keys[o.key] = true
 		case "age", "shut":
 			if partial && len(keys) > 1 {
@@ -457,7 +504,7 @@ func main() {
 		res := runCase(c, scratch, cc, facts, instantiateSeq(syms), true)
 		nontriv := false
 		for _, s := range syms {
-			if s == "fail" || s == "fail1" || s == "hold" || s == "wpause" || s == "shut" || s == "crash" {
+			if s == "fail" || s == "fail1" || s == "stall" || s == "hold" || s == "wpause" || s == "shut" || s == "crash" {
 				nontriv = true
 			}
 		}
